@@ -651,9 +651,9 @@ def _sympy_condition_bits(ctx, repo):
             self.lhs, self.rhs = lhs, rhs
 
     class Args:
-        def __init__(self, n):
-            self.meas_key_bitcount = {'m_a': n}
-            self.meas_key_id_map = {'a': 'm_a'}
+        def __init__(self, n, reg='m_a'):
+            self.meas_key_bitcount = {reg: n}
+            self.meas_key_id_map = {'a': reg}
             self.version = '2.0'
 
         def validate_version(self, *a):
@@ -661,8 +661,9 @@ def _sympy_condition_bits(ctx, repo):
 
     class Me:
         pass
-    for n in (1, 2, 3):
-        for v in range(2 ** n):
+    # the register of key `a` is whatever the output assigned to it: the default m_a, or a generated name (keys that are not identifiers)
+    for reg, n, v in [(r_, n_, v_) for r_ in ('m_a', 'm0') for n_ in (1, 2, 3) for v_ in range(2 ** n_)]:
+        if True:
             me = Me()
             me.expr = Eq(Sym('a'), Int(v))
 
@@ -691,20 +692,20 @@ def _sympy_condition_bits(ctx, repo):
                         return isinstance(o, Int)
                 return NotImplemented
             params = [a.arg for a in fn.args.args]
-            it = fdx.NumInterp({params[0]: me, params[1]: Args(n)}, call_hook=call_hook, attr_hook=attr_hook)
+            it = fdx.NumInterp({params[0]: me, params[1]: Args(n, reg)}, call_hook=call_hook, attr_hook=attr_hook)
             it.builtins.update({'int': int, 'str': str, 'format': format})
             try:
                 out = it.call(fn)
             except (fdx.Unsupported, fdx.Raised) as ex:
                 raise AnalysisError(f'cannot interpret SympyCondition._qasm_: {ex}')
-            mt = re.fullmatch(r'm_a==(\d+)', out or '')
+            mt = re.fullmatch(re.escape(reg) + r'==(\d+)', out or '')
             ok = False
             if mt:
                 w = int(mt.group(1))
                 ok = all(((w >> i) & 1) == ((v >> (n - 1 - i)) & 1) for i in range(n))
-            ctx.ob('C19.h', f'{ci.qual}._qasm_:bits={n}:value={v}', ok, '' if ok else
-                   f'a == {v} on a {n}-bit key (Cirq: first measured qubit is the most significant bit) is exported as `{out}`; with measure q[i] -> m_a[i] a QASM reader compares other '
-                   'bits than Cirq does', ci.mod.rel, fn.lineno)
+            ctx.ob('C19.h', f'{ci.qual}._qasm_:register={reg}:bits={n}:value={v}', ok, '' if ok else
+                   f'a == {v} on a {n}-bit key held in register {reg} (Cirq: first measured qubit is the most significant bit) is exported as `{out}`; with measure q[i] -> {reg}[i] a QASM '
+                   'reader compares another register or other bits than Cirq does', ci.mod.rel, fn.lineno)
 
 
 def _measure_bit_positions(ctx, repo):
